@@ -36,13 +36,15 @@ CHECKS = {
             "Full for the inference rules: each get_annotations rule is executed by an interpreter for the pure fragment it is written in (set algebra, reduce, comprehensions, "
             "isinstance/issubclass against parametric patterns, identity tests) on every composite with up to 3-4 parts x all 16 raw annotation subsets per part; a claimed annotation "
             "that linear algebra does not allow is reported with the witness operator. Refute-only for output sites: Unitary/Stiefel(...) inside cola/ is refuted when the wrapped "
-            "value provably has a caller-controlled column count or holds general eigenvectors, proved when it is a (column selection of a) unitary factor, undecided otherwise.",
+            "value provably has a caller-controlled column count or holds general eigenvectors, proved when it is a (column selection of a) unitary factor, undecided otherwise. Index "
+            "objects of a Sliced that are materialised as arange(N)[s] must take N from the parent's shape on the same axis.",
             "Trusted: oracle `allowed` in sa/annot.py (one line per combinator with its reason); backend provenance table in sa/prov.py (eigh/svd/qr/eig). Numerical orthogonality of "
             "Krylov bases and PSD-ness of user data are not decided.", "4/C05"),
     "C02": ("term rewriting (abstract interpretation of product methods and transpose/adjoint rules into a free algebra over T, C, inv, products, sums, factor families; normal-form comparison)",
             "Decides the algebraic shape, not the numbers: every explicit _rmatmat must be right-multiplication by the same term its _matmat left-multiplies with (Dense, Sparse, "
             "Product order, Sum, Diagonal broadcasting idiom, Transpose, Adjoint, TriangularInv incl. the lower flag); the default _rmatmat's self-adjoint shortcut must equal X*A "
-            "under H(A)=A; each transpose/adjoint rule must equal T(A) / C(T(A)) under its own cond and its operand kind's defining equation; .T/.H must delegate to them.",
+            "under H(A)=A; each transpose/adjoint rule must equal T(A) / C(T(A)) under its own cond and its operand kind's defining equation; .T/.H must delegate to them; an operator kind "
+            "that subclasses another kind (and is therefore selected by all of its dispatch rules) must represent the same matrix term as its base.",
             "Opaque by declaration: FFT, Jacobian, Sliced values, the linear_transpose branch. Numerical agreement for nestings is not decided.", "4/C02"),
     "C03": ("term rewriting of the operator overloads and dot/add/mul/kron/kronsum rules against the matrix expression each stands for; structural checks of shape validation and composite metadata",
             "Decides the algebraic meaning of every Python operator overload of LinearOperator (A+x, A-x, -A, c*A, A/c, c/A, A@B, B@A, the A+0 shortcut) and of every rewrite rule "
@@ -54,7 +56,8 @@ CHECKS = {
             "Decides the algebraic shape of every dispatch path of inv/pinv/solve: factorisation base cases (inv(H(L))*inv(L) for A = L*H(L); inv(U)*inv(L)*inv(P) for A = P*L*U), "
             "structural rules (reversed product of inverses, factor-wise and NOT reversed for Kronecker/BlockDiag with multiplicities kept, reciprocal payloads, argsort permutation, "
             "adjoint under the Unitary cond, triangular solve), forwarding of the algorithm argument, the lazy iterative inverse calling alg(A, X), and that Auto is exhaustive and "
-            "chooses PSD-only algorithms only where its guard implies PSD.",
+            "chooses PSD-only algorithms only where its guard implies PSD. For the CG path, the HOMOG analysis of C12 decides that the stopping threshold is homogeneous in b "
+            "(the requested tolerance is relative) and the solution linear in b.",
             "Residual sizes, tolerances, conditioning and the numerical effect of the 10^6 threshold are not decided. Dispatch of every (kind, algorithm) pair is C04; densification is C19.", "4/C06"),
     "C09": ("term rewriting of the apply_unary / exp / log / pow / sqrt / isqrt rules; decision table of the Auto rule",
             "Decides the algebraic shape of every matrix-function rule: dense paths must be V f(D) V^-1 with V^-1 written as V^H only for the unitary eigenvectors of eigh; structural "
@@ -83,33 +86,36 @@ CHECKS = {
             "Decides the 'same values or refuses' clause structurally: rules whose formula only holds for the main diagonal (BlockDiag, Kronecker, KronSum) must refuse k != 0, the "
             "k-generic ones must let k reach the result; self-built off-diagonals have length n - |k|; recursive calls keep (k, alg); the outer-product idiom puts factor i on axis i "
             "(row-major) with product for Kronecker and sum for KronSum; BlockDiag concatenates with multiplicities; trace = sum of diag(A, 0, alg) after a squareness check and product "
-            "of traces for Kronecker; the Exact/Hutch base case forwards (A, k); Auto constructs Exact on the small-tolerance branch.",
-            "The blocked probing arithmetic of exact_diag (chunk/shift logic for sizes not divisible by the block) and the numerical value of the Auto threshold are runtime quantities and "
+            "of traces for Kronecker; the Exact/Hutch base case forwards (A, k); Auto constructs Exact on the small-tolerance branch; the blocked probing loop of exact_diag ranges over "
+            "every column of the operator in steps of the block it hands to the chunk builder.",
+            "The chunk/shift arithmetic inside get_I_chunk_like (sizes not divisible by the block) and the numerical value of the Auto threshold are runtime quantities and "
             "are NOT decided.", "4/C08"),
     "C10": ("provenance dataflow (sort order of spectra) and def-use pairing over the eig rules and their Krylov helpers; decision table of the Auto rule",
             "Decides the selection mechanism: get_slice maps SM/LM to the first/last k entries, so every spectrum it cuts must be in ascending-magnitude order (eigh: algebraic, eig: "
             "unordered, x[argsort(x)]: algebraic, x[argsort(|x|)]: magnitude); values and vectors must be permuted by the same argsort index on the column axis (a Permutation operator "
             "or row index is the transposed permutation) and cut by the same slice; eigmax/eigmin call eig with k=1 and LM/SM; power iteration refuses other requests; Auto chooses "
-            "Lanczos only under SelfAdjoint.",
+            "Lanczos only under SelfAdjoint; the matrix handed to the backend eigh / eig is A itself (term equality, under H(A)=A for eigh).",
             "That returned pairs satisfy A v = lambda v, convergence and linear independence are numerical and not decided.", "4/C10"),
     "C12": ("bounded-loop certificate (cap conjunct + counter monotonicity), def-use of the stopping tolerance and the scaling array, axis discipline of reductions, typestate of the iteration counter",
             "Decides the stopping contract and the structural part of the per-column claim: the loop condition is a conjunction containing k < max_iters with k from 0 by +1 per body; it "
             "continues while ANY column's residual norm exceeds tol' = tol*||r0|| + tol, computed once; the right-hand side is divided by its column norms and solution and residual are "
             "multiplied back by the same array (linearity in b, exact zero for b = 0); every reduction on the CG state in the routine and its helpers is over the row axis (no mixing of "
-            "right-hand-side columns); the reported iteration count must advance once per body execution.",
+            "right-hand-side columns); the reported iteration count must advance once per body execution. A degree-of-homogeneity type system (HOMOG: b has degree 1, exact zeros and "
+            "division guards any degree, products add, sums need equal degrees) additionally decides that the stopping test compares quantities of equal degree (a relative tolerance), "
+            "that the returned solution has degree 1 in b, and that the counter is compared with the caller's max_iters itself, not a derived value.",
             "Krylov optimality of the iterate, the recurrences themselves and preconditioner independence are numerical and NOT decided (a formula match of the CG recurrences was "
             "rejected: an equivalent reformulation would be a false alarm).", "4/C12"),
     "C14": ("bounded-loop certificate, constructor-argument identity, sign provenance of written entries, sesquilinear-form convention of the Gram-Schmidt step, def-use pairing",
             "Structural necessary conditions: at most min(max_iters, n) steps (clip + cond conjunct i <= max_iters with i from 1 by +1); T is Tridiagonal(a, b, a) with the same array in "
             "both off-diagonal slots and off-diagonal entries written as norms; the start vector is divided by its norm (not in place) and stored in column 1; the re-orthogonalisation "
             "coefficient conjugates the basis it is later multiplied with; lanczos_eigs sorts ascending and permutes values and vector columns by the same index; diagonal, off-diagonal "
-            "and Q are trimmed to iters, iters-1, iters.",
+            "and Q are trimmed to N, N-1, N for one size N; the work buffers of init_lanczos are typed by the operator's dtype at every call site.",
             "Orthonormality, the three-term recurrence, early termination and A Q - Q T are numerical and not decided.", "4/C14"),
     "C15": ("bounded-loop certificate, allocation check of the work buffers, sign provenance, dependence of the normalisation floor on the tolerance, projection convention",
             "Thin structural claim: at most min(max_iters, n) steps; H and Q are zero-initialised (never empty) and sized by the requested cap, which is why extra rows/columns stay zero; "
             "sub-diagonal entries are norms; the new vector is divided by clip(norm, floor) with a floor that depends on tol (a tol-independent floor turns post-breakdown rounding noise "
             "into a unit column with a zero H column); modified Gram-Schmidt conjugates the basis; the first column is the normalised start vector; arnoldi_eigs drops the last row of H "
-            "and last column of Q together.",
+            "and last column of Q together; the work buffers of init_arnoldi are typed by the operator's dtype at every call site.",
             "The Arnoldi relation, orthonormality and breakdown behaviour as numbers are not decided.", "4/C15"),
     "C01": ("dtype-source dataflow over every _matmat/_rmatmat, dependence of composite metadata, role checks of dimensions on the generic paths and the Kronecker / KronSum / BlockDiag contractions",
             "Partial by construction (the value of a product is out of reach): decides that no buffer typed by one side receives data of the other side in place, that the result dtype of "
@@ -122,7 +128,8 @@ CHECKS = {
             "Partial: decides that each arm's canonical vector has the contracted dimension of the operator it multiplies (rows for A.T, columns for A), that every self attribute read by a "
             "base-class method exists on the base class, that Sliced derives rows from slices[0] and columns from slices[1], stores the caller's index objects unchanged, scatters into an "
             "(A.C, k) buffer whose dtype covers the operand and gathers by the other index (mirror image on the left), that duck-type guards test the attribute they protect, that every "
-            "documented index form has an arm and the fall-through raises, and that no slice(*s.indices(n)) round trip is used.",
+            "documented index form has an arm and the fall-through raises, that no slice(*s.indices(n)) round trip is used, and that every exit of Sliced._matmat/_rmatmat goes through the "
+            "scatter/gather pair (a size-guarded shortcut that multiplies the parent by the raw operand is refuted).",
             "Values for negative / strided / empty slices are delegated to the array library by construction: noted, not proved.", "4/C20"),
 }
 
